@@ -177,13 +177,14 @@ Definition port_ok (p : N) : bool :=
 Definition all_ports : list N := map N.of_nat (seq 0 (N.to_nat 65536)).
 
 Lemma ports_sweep : forallb port_ok all_ports = true.
-Proof. vm_compute. reflexivity. Qed.
+Proof. Time vm_compute. reflexivity. Time Qed.
 
 Lemma port_ok_le p : p <= 65535 -> port_ok p = true.
 Proof.
   intro H. pose proof ports_sweep as S. rewrite forallb_forall in S. apply S.
-  unfold all_ports. apply in_map_iff. exists (N.to_nat p). split; [apply N2Nat.id | apply in_seq; lia].
-Qed.
+  unfold all_ports. apply in_map_iff. exists (N.to_nat p). split; [apply N2Nat.id |].
+  Time apply in_seq. Time lia.
+Time Qed.
 
 Lemma read_digits_app ds : forallb is_digit ds = true -> forall acc c r, is_digit c = false ->
   read_digits acc (ds ++ c :: r) = (fold_left (fun a c => a * 10 + (c - 48)) ds acc, c :: r).
@@ -197,7 +198,9 @@ Lemma read_nat_digits p c r : p <= 65535 -> is_digit c = false ->
   read_nat (digits p ++ c :: r) = Some (p, c :: r).
 Proof.
   intros Hp Hc. pose proof (port_ok_le p Hp) as H. unfold port_ok in H.
-  repeat (apply andb_true_iff in H; destruct H as [H ?]).
+  apply andb_true_iff in H. destruct H as [H _].
+  apply andb_true_iff in H. destruct H as [H H1].
+  apply andb_true_iff in H. destruct H as [H H0].
   destruct (digits p) as [|d ds] eqn:E; [discriminate|].
   pose proof (read_digits_app (d :: ds) H 0 c r Hc) as R.
   apply N.eqb_eq in H0. unfold digits_value in H0. rewrite H0 in R.
@@ -216,7 +219,7 @@ Qed.
 Lemma digits_ascii_le p : p <= 65535 -> ascii (digits p).
 Proof.
   intro Hp. pose proof (port_ok_le p Hp) as H. unfold port_ok in H.
-  repeat (apply andb_true_iff in H; destruct H as [H ?]).
+  do 3 (apply andb_true_iff in H; destruct H as [H _]).
   rewrite forallb_forall in H. apply Forall_forall. intros c Hc. specialize (H c Hc).
   unfold is_digit in H. apply andb_true_iff in H. destruct H as [_ H]. apply N.leb_le in H. lia.
 Qed.
